@@ -21,3 +21,95 @@ pub fn setup_probe() {
     assert!(x as u16 + 1 > 0);
     kani::cover!(x == 7, "probe reachable");
 }
+
+use std::io::{self, Read, Seek, SeekFrom};
+
+/// In-memory stream over fixed storage whose `read` may return *fewer* bytes than requested:
+/// every call draws a fresh symbolic count k >= 1 (the chunking schedule is a vector of solver
+/// variables).  Optionally fails (io::ErrorKind::Other) at the `fail_at`-th read/seek call.
+/// With `short = false` it behaves like `std::io::Cursor`.
+pub struct SymStream<const N: usize> {
+    pub data: [u8; N],
+    pub len: usize,
+    pub pos: u64,
+    pub short: bool,
+    pub calls: usize,
+    pub fail_at: Option<usize>,
+    pub failed: bool,
+    pub short_reads_done: usize,
+}
+
+impl<const N: usize> SymStream<N> {
+    pub fn new(data: [u8; N], len: usize, short: bool) -> Self {
+        SymStream { data, len, pos: 0, short, calls: 0, fail_at: None, failed: false, short_reads_done: 0 }
+    }
+
+    fn tick(&mut self) -> io::Result<()> {
+        let c = self.calls;
+        self.calls += 1;
+        if self.fail_at == Some(c) {
+            self.failed = true;
+            return Err(io::Error::from(io::ErrorKind::Other));
+        }
+        Ok(())
+    }
+}
+
+#[cfg(kani)]
+impl<const N: usize> Read for SymStream<N> {
+    fn read(&mut self, buf: &mut [u8]) -> io::Result<usize> {
+        self.tick()?;
+        let pos = if self.pos > self.len as u64 { self.len } else { self.pos as usize };
+        let avail = self.len - pos;
+        let mut n = if buf.len() < avail { buf.len() } else { avail };
+        if self.short && n > 1 {
+            let k: usize = kani::any();
+            kani::assume(k >= 1 && k <= n);
+            if k < n {
+                self.short_reads_done += 1;
+            }
+            n = k;
+        }
+        let mut i = 0;
+        while i < n {
+            buf[i] = self.data[pos + i];
+            i += 1;
+        }
+        self.pos = (pos + n) as u64;
+        Ok(n)
+    }
+}
+
+impl<const N: usize> Seek for SymStream<N> {
+    fn seek(&mut self, s: SeekFrom) -> io::Result<u64> {
+        self.tick()?;
+        let (base, off) = match s {
+            SeekFrom::Start(p) => {
+                self.pos = p;
+                return Ok(p);
+            }
+            SeekFrom::End(o) => (self.len as u64, o),
+            SeekFrom::Current(o) => (self.pos, o),
+        };
+        match base.checked_add_signed(off) {
+            Some(p) => {
+                self.pos = p;
+                Ok(p)
+            }
+            None => Err(io::Error::from(io::ErrorKind::InvalidInput)),
+        }
+    }
+}
+
+/// N arbitrary bytes without a loop over N (tuple of u64 + transmute), N must be a multiple of 8 <= 32.
+#[cfg(kani)]
+pub fn any_bytes32() -> [u8; 32] {
+    let w: (u64, u64, u64, u64) = kani::any();
+    unsafe { core::mem::transmute([w.0, w.1, w.2, w.3]) }
+}
+
+#[cfg(kani)]
+pub fn any_bytes24() -> [u8; 24] {
+    let w: (u64, u64, u64) = kani::any();
+    unsafe { core::mem::transmute([w.0, w.1, w.2]) }
+}
